@@ -325,31 +325,32 @@ impl ExtractorCompactorBackup {
     }
 
     /// Write the backup file to disk.
+    ///
+    /// The content is written to a temporary file, fsynced and renamed over
+    /// the journal (like `record_segment`): a crash leaves the previous
+    /// journal or the new one, never a truncated or half-written file.
     pub fn save(&self) -> Result<()> {
-        let mut file = File::create(&self.path).map_err(|e| {
-            StorageError::Archive(format!(
-                "failed to create compaction backup {}: {e}",
-                self.path.display()
-            ))
-        })?;
-
-        // Header
-        file.write_all(&[BACKUP_VERSION])
-            .map_err(|e| StorageError::Archive(format!("failed to write backup version: {e}")))?;
-        file.write_all(&BACKUP_MAX_ENTRIES.to_le_bytes())
-            .map_err(|e| {
-                StorageError::Archive(format!("failed to write backup max entries: {e}"))
-            })?;
-
-        // Segment indices
+        // Header + segment indices
+        let mut data = Vec::with_capacity(BACKUP_HEADER_SIZE + self.segments.len() * 4);
+        data.push(BACKUP_VERSION);
+        data.extend_from_slice(&BACKUP_MAX_ENTRIES.to_le_bytes());
         for &seg in &self.segments {
-            file.write_all(&u32::from(seg).to_le_bytes()).map_err(|e| {
-                StorageError::Archive(format!("failed to write backup segment: {e}"))
-            })?;
+            data.extend_from_slice(&u32::from(seg).to_le_bytes());
         }
 
-        file.flush()
-            .map_err(|e| StorageError::Archive(format!("failed to flush backup: {e}")))?;
+        let temp_path = self.path.with_extension("tmp");
+        let written = File::create(&temp_path).and_then(|mut file| {
+            file.write_all(&data)?;
+            file.sync_all()?;
+            std::fs::rename(&temp_path, &self.path)
+        });
+        if let Err(e) = written {
+            let _ = std::fs::remove_file(&temp_path);
+            return Err(StorageError::Archive(format!(
+                "failed to write compaction backup {}: {e}",
+                self.path.display()
+            )));
+        }
 
         Ok(())
     }
